@@ -950,7 +950,12 @@ class NetConnections:
                     if filter_pid is not None and filter_pid != pid:
                         continue
                     else:
-                        path = tokens[-1] if len(tokens) == 8 else ''
+                        if len(tokens) >= 8:
+                            # the path can contain spaces: take everything
+                            # which follows the inode
+                            path = line.split(None, 7)[7].rstrip('\n')
+                        else:
+                            path = ''
                         type_ = _common.socktype_to_enum(int(type_))
                         # XXX: determining the remote endpoint of a
                         # UNIX socket on Linux is not possible, see:
